@@ -20,14 +20,14 @@ def nats (j : Json) (k : String) : Except String (List Nat) := do Wire.natList (
 def jn (n : Nat) : Json := Json.num (JsonNumber.fromNat n)
 def jl (l : List Nat) : Json := Wire.ofNatList l
 
+def optNats (j : Json) (k : String) : Except String (Option (List Nat)) :=
+  match j.getObjVal? k with
+  | .ok Json.null => pure none
+  | .ok x => do pure (some (← Wire.natList x))
+  | .error _ => pure none
+
 def frameOf (j : Json) : Except String FrameM := do
-  let w ← nat j "w"
-  let h ← nat j "h"
-  let d ← j.getObjVal? "data"
-  let data ← (match d with
-    | Json.null => pure none
-    | x => do pure (some (← Wire.natList x)))
-  pure ⟨w, h, data⟩
+  pure ⟨← nat j "w", ← nat j "h", ← optNats j "data", ← optNats j "file"⟩
 
 def vtfOf (j : Json) : Except String Vtf := do
   let frames ← (← (← j.getObjVal? "frames").getArr?).toList.mapM fun e => do
@@ -127,7 +127,7 @@ def handle (j : Json) : Except String Json := do
     match readFile l with
     | .error e => pure (errJson e)
     | .ok v =>
-      let bs := l.toArray
+      let bs := l
       let frames := Json.arr (v.frames.map fun (k, w, h, off) =>
         Json.mkObj [("key", jl [k.1, k.2.1, k.2.2]), ("w", jn w), ("h", jn h),
                     ("off", if v.headerOnly then Json.null else jn off),
